@@ -371,6 +371,13 @@ class TapAdapter(engine.DevAdapter):
         v = []
         kc = red.selected_kill_chain
         stages = sorted(int(m) for m in kc if int(m) < 100)
+        # the chain this agent is configured with ends at the last stage its kill_chain options define (the insider's enumeration
+        # also names later stages - EMBED .. ERASE - that its options and its implementation do not have)
+        opts = getattr(red.config.agent_settings, "kill_chain", None)
+        named = {m.name for m in kc}
+        have = [int(kc[n]) for n in (type(opts).model_fields if opts is not None else ()) if n in named]
+        if have:
+            stages = [x for x in stages if x <= max(have)]
         first, last = stages[0], stages[-1]
         NOT_STARTED, SUCCEEDED, FAILED = 100, 200, 300
         a, b = int(pre), int(post)
@@ -443,11 +450,11 @@ def tap_plan(tier):
     P = []
     if tier == "thorough":
         for scen in ("uc7", "uc7_tap003"):
-            P.append(("tap-%s-det" % scen, scen, dict(variance=0, probability=1), 80, 1))
+            P.append(("tap-%s-det" % scen, scen, dict(variance=0, probability=1), 64, 1))
             P.append(("tap-%s-second-pass" % scen, scen, dict(variance=0, probability=1, repeat_kill_chain=True, frequency=2), 60, 1))
             P.append(("tap-%s-var" % scen, scen, dict(variance=1, probability=0.5, repeat_kill_chain_stages=True), 60, 1))
-            # two deviations (blue action and/or alternative RNG answers) inside the first 14 steps
-            P.append(("tap-%s-var-k2" % scen, scen, dict(variance=1, probability=0.5, repeat_kill_chain_stages=True), 14, 2))
+            # two deviations (blue action and/or alternative RNG answers) inside the first 10 steps
+            P.append(("tap-%s-var-k2" % scen, scen, dict(variance=1, probability=0.5, repeat_kill_chain_stages=True), 10, 2))
             P.append(("tap-%s-norepeat" % scen, scen, dict(variance=1, probability=0.5, repeat_kill_chain_stages=False, repeat_kill_chain=True), 60, 1))
     else:
         P.append(("tap-uc7-var", "uc7", dict(variance=1, probability=0.5), 28, 1))
